@@ -10,6 +10,8 @@ Record case := {
   c_workers : nat;
   c_m : N; c_d : N;                     (* ratio used by Clone on the first tree *)
   c_clone : tnode;                      (* Go: built[0].Clone(m/d) *)
+  c_dec_nodict : option tnode;          (* Go: DeserializeNoDict(SerializeNoDict(2^20)) of the concurrent merge *)
+  c_dec_dict : option tnode;            (* Go: Deserialize(d, Serialize(d, 2^20)) of it, fresh dictionary *)
   c_src_untouched : bool                (* Go: sources dumped identical before/after merge and clone *)
 }.
 
@@ -51,6 +53,12 @@ Definition check_case (c : case) : verdict :=
     spec (t_subb (c_clone c)) "clone: total < self + children";
     spec (clone_spec (c_m c) (c_d c) b0 (c_clone c)) "clone: a value is not floor(v*m/d)";
     spec (c_src_untouched c) "merge/clone modified a source tree";
+    (* decoding keeps total = self + children and the per-stack self values (zero-total frames may go) *)
+    spec (match c_dec_nodict c with Some t => t_exactb t | None => false end) "decoded tree (self-contained encoding): total <> self + children";
+    spec (match c_dec_dict c with Some t => t_exactb t | None => false end) "decoded tree (dictionary encoding): total <> self + children";
+    spec (match c_dec_nodict c, c_dec_dict c with
+          | Some t1, Some t2 => pm_eqb (pnz (pnorm (t_den t1))) spec_den && pm_eqb (pnz (pnorm (t_den t2))) spec_den
+          | _, _ => false end) "decoded tree: per-stack self values are not the sum of the inputs";
     (* --- model vs implementation --- *)
     corr (list_eqb t_eqb mbuilt (c_built c)) "t_insert model differs from Tree.Insert";
     corr (match merge_serial mbuilt with Some t => t_eqb t (c_serial c) | None => false end) "t_merge model differs from Tree.Merge";
